@@ -35,8 +35,10 @@ def specs():
     """(key, (function, class), Spec) for every translated function."""
     out = []
     out.append(("rleInit", ("__init__", "RLEColumn"), Spec(
-        "rleInit", "(eq : α → α → Bool) (self_values : List α)", "List α × List Nat",
-        ctx_binders="(eq : α → α → Bool)", ctx_args="eq", cmp={"Eq": "eq"},
+        # (`sameClass`: "of the same class", for a run test that looks at the classes of the two values; a source that
+        # does not is translated to a definition that ignores the parameter)
+        "rleInit", "(eq : α → α → Bool) (sameClass : α → α → Bool) (self_values : List α)", "List α × List Nat",
+        ctx_binders="(eq : α → α → Bool) (sameClass : α → α → Bool)", ctx_args="eq sameClass", cmp={"Eq": "eq", "SameClass": "sameClass"},
         var_types={"run_values": "List α", "run_lengths": "List Nat", "self.values": "List α", "self.lengths": "List Nat"},
         init_scope={"self.values": ("self_values", "List α"), "self.lengths": ("self_lengths", "List Nat")},
         # (`lengths` is a dataclass field with `default_factory=list`: FlatColumn.__init__ sets it to [])
@@ -234,6 +236,38 @@ def written_out(src, fn_name, cls_name):
 def source_of(src, where):
     fn = written_out(src, where[0], where[1])
     return fn if len(where) == 2 else _Block(fn, where[2])
+
+
+def rle_extends(fn, spec):
+    """`Gen.Encodings.rleExtends`: the test of the run-detection loop of RLEColumn.__init__ under which a value
+    *extends* the current run (the branch that increments `run_length`), as a function of the two values.  The
+    theorems about the stored form ("adjacent runs differ") are stated over it."""
+    loops = [n for n in ast.walk(fn) if isinstance(n, ast.For)]
+    if len(loops) != 1 or not isinstance(loops[0].target, ast.Name):
+        raise Untranslatable("%d loops in RLEColumn.__init__" % len(loops))
+    var = loops[0].target.id
+    ifs = [s for s in loops[0].body if isinstance(s, ast.If)]
+    if len(ifs) != 1:
+        raise Untranslatable("%d tests in the run-detection loop" % len(ifs))
+
+    def increments(stmts):
+        return any(isinstance(x, ast.AugAssign) and isinstance(x.op, ast.Add) and ast.unparse(x.target) == "run_length"
+                   and ast.unparse(x.value) == "1" for st in stmts for x in ast.walk(st))
+
+    test = ifs[0].test
+    names = {x.id for x in ast.walk(test) if isinstance(x, ast.Name)} - {"type"}
+    if names != {var, "prev_value"} or var != "value" or increments(ifs[0].body) == increments(ifs[0].orelse):
+        raise Untranslatable("run test " + ast.unparse(test)[:60])
+    tr = pystmt.Translator(spec)
+    v = tr.expr(test, {"value": ("value", spec.elem), "prev_value": ("prev_value", spec.elem)})
+    tr.pure(v)
+    if v.ty != "Bool":
+        raise Untranslatable("run test of type " + v.ty)
+    term = v.term if increments(ifs[0].body) else "!(%s)" % v.term
+    return ("/-- the run test of `RLEColumn.__init__` (`if %s:`, the increment of `run_length` in the %s branch): a value\n"
+            "extends the current run exactly when this holds -/\n"
+            "def rleExtends %s (value prev_value : %s) : Bool :=\n  %s\n"
+            % (ast.unparse(test), "`if`" if increments(ifs[0].body) else "`else`", spec.ctx_binders, spec.elem, term))
 
 
 def class_length_default(src, cls):
@@ -515,6 +549,7 @@ def generate(o):
 
     def assemble(translated, decision):
         text = HEADER + "import OrsoVerif.Model.Np\nimport OrsoVerif.Model.NpDtype\n"
+        text += "set_option linter.unusedVariables false\n"
         text += "namespace Gen.Encodings\nopen Enc\n"
         text += "/-- `if value == prev_value` in RLEColumn.__init__ (found: %s) -/\n" % rc
         text += "def rleCompareIsEq : Bool := %s\n" % ("true" if rc == "Eq" else "false")
@@ -537,9 +572,30 @@ def generate(o):
         text += "end Gen.Encodings\n"
         return text
 
+    class _ValueFirst(ast.NodeTransformer):
+        """`prev_value == value` -> `value == prev_value` (also `!=`): Python's equality is symmetric on the
+        property's element kinds; the theorems are stated with the new value first."""
+
+        def visit_Compare(self, n):
+            self.generic_visit(n)
+            if len(n.ops) == 1 and isinstance(n.ops[0], (ast.Eq, ast.NotEq)) and ast.unparse(n.left) == "prev_value" \
+                    and ast.unparse(n.comparators[0]) == "value":
+                n.left, n.comparators = n.comparators[0], [n.left]
+            return n
+
+    def lean_of(key, where, spec):
+        fn = source_of(src, where)
+        if key == "rleInit":
+            fn = ast.fix_missing_locations(_ValueFirst().visit(fn))
+        text = pystmt.translate(fn, spec)
+        if key == "rleInit":
+            # (one item with the translation of the constructor: either both follow the source or both are pinned)
+            text = rle_extends(fn, spec) + "\n" + text
+        return text
+
     translated = {}
     for key, where, spec in specs():
-        translated[key] = o.item("schema.lean." + key, (lambda where=where, spec=spec: pystmt.translate(source_of(src, where), spec)),
+        translated[key] = o.item("schema.lean." + key, (lambda key=key, where=where, spec=spec: lean_of(key, where, spec)),
                                  PINNED.get(key, ""))
     ld = {cls: o.item("schema.length_default." + cls, (lambda cls=cls: class_length_default(src, cls)), 1)
           for cls in ("ConstantColumn", "FunctionColumn")}
